@@ -1,2 +1,238 @@
-//! placeholder until the interface generator is wired in
-pub struct IfaceEntry;
+//! Shared definitions for the generated interfaces (C26, C27, C28, C33): the tables the generator
+//! fills, the handlers' outcome function, and the server / peer scaffolding.
+
+use crate::env::*;
+use crate::genval::Gen;
+use crate::sched::*;
+use std::future::Future;
+use std::pin::Pin;
+use std::sync::{Arc, Mutex};
+use vcore::refmodel::msg::{self, RMsg};
+use vcore::refmodel::val::RVal;
+use vcore::run::Failure;
+use vcore::src::{fnv, Src};
+use zbus::Connection;
+
+pub type Log = Arc<Mutex<Vec<String>>>;
+pub type BoxFut<'a, T> = Pin<Box<dyn Future<Output = T> + 'a>>;
+
+#[derive(Debug, Clone, PartialEq)]
+pub struct ExpErr {
+    pub name: String,
+    pub text: Option<String>,
+}
+
+#[derive(Debug, zbus::DBusError)]
+#[zbus(prefix = "gen.Err")]
+pub enum GErr {
+    #[zbus(error)]
+    ZBus(zbus::Error),
+    Boom(String),
+    Fizz,
+}
+
+/// handlers of fallible methods fail for a quarter of the labels
+pub fn fails(label: &str) -> Option<u64> {
+    let h = fnv(label.as_bytes());
+    if h % 4 == 0 {
+        Some(h / 4)
+    } else {
+        None
+    }
+}
+const FDO: [&str; 4] = ["Failed", "NotSupported", "InvalidArgs", "AccessDenied"];
+pub fn fdo_err(h: u64) -> zbus::fdo::Error {
+    let t = format!("fdo failure {}", h % 97);
+    match h % 4 {
+        0 => zbus::fdo::Error::Failed(t),
+        1 => zbus::fdo::Error::NotSupported(t),
+        2 => zbus::fdo::Error::InvalidArgs(t),
+        _ => zbus::fdo::Error::AccessDenied(t),
+    }
+}
+pub fn custom_err(h: u64) -> GErr {
+    if h % 2 == 0 {
+        GErr::Boom(format!("custom failure {}", h % 89))
+    } else {
+        GErr::Fizz
+    }
+}
+/// what the handler of a method with return type R does for `label` (mode 0 infallible, 1
+/// fdo::Result, 2 custom error), as the harness predicts it
+pub fn outcome<R: Gen>(label: &str, mode: u8) -> Result<R, ExpErr> {
+    if mode != 0 {
+        if let Some(h) = fails(label) {
+            return Err(if mode == 1 {
+                ExpErr { name: format!("org.freedesktop.DBus.Error.{}", FDO[(h % 4) as usize]), text: Some(format!("fdo failure {}", h % 97)) }
+            } else if h % 2 == 0 {
+                ExpErr { name: "gen.Err.Boom".into(), text: Some(format!("custom failure {}", h % 89)) }
+            } else {
+                ExpErr { name: "gen.Err.Fizz".into(), text: None }
+            });
+        }
+    }
+    Ok(crate::genval::derived(label))
+}
+
+pub struct CallSpec {
+    pub label: String,
+    pub args: Vec<RVal>,
+}
+
+pub struct MethodEntry {
+    pub member: &'static str,
+    pub in_sigs: &'static [&'static str],
+    pub in_names: &'static [&'static str],
+    /// one per declared out argument
+    pub out_sigs: &'static [&'static str],
+    pub out_names: &'static [&'static str],
+    /// the signature of the reply body on the wire
+    pub body_sig: &'static str,
+    /// returns one structure-typed value (its fields become the body: documented ambiguity)
+    pub struct_ret: bool,
+    pub mutable: bool,
+    pub is_async: bool,
+    pub mode: u8,
+    pub header: bool,
+    pub emits: Option<usize>,
+    pub gen_call: fn(&mut Src) -> CallSpec,
+    pub expect: fn(&str) -> Result<Vec<RVal>, ExpErr>,
+    pub expect_signal: Option<fn(&str) -> Vec<RVal>>,
+    pub doc: Option<&'static str>,
+}
+
+pub struct PropEntry {
+    pub name: &'static str,
+    pub sig: &'static str,
+    pub read: bool,
+    pub write: bool,
+    pub emits: &'static str,
+    /// the setter refuses the values for which `fails(label)`
+    pub rejects: bool,
+    pub init: fn() -> RVal,
+    pub gen_val: fn(&mut Src) -> (RVal, String),
+    pub doc: Option<&'static str>,
+}
+
+pub struct SignalEntry {
+    pub member: &'static str,
+    pub sigs: &'static [&'static str],
+    pub names: &'static [&'static str],
+    pub doc: Option<&'static str>,
+}
+
+#[derive(Debug)]
+pub enum PxOut {
+    Call { label: String, result: Result<Vec<RVal>, ExpErr>, signal: Option<Vec<RVal>> },
+    Get { prop: usize, result: Result<RVal, String> },
+    Set { prop: usize, label: String, value: RVal, result: Result<(), String> },
+}
+
+pub struct IfaceEntry {
+    pub rs: &'static str,
+    pub name: &'static str,
+    pub spawn: bool,
+    pub register: for<'a> fn(&'a zbus::ObjectServer, String, Log) -> BoxFut<'a, zbus::Result<bool>>,
+    pub remove: for<'a> fn(&'a zbus::ObjectServer, String) -> BoxFut<'a, zbus::Result<bool>>,
+    pub px: for<'a> fn(&'a Connection, String, usize, Vec<u8>) -> BoxFut<'a, Result<PxOut, String>>,
+    pub bpx: fn(&zbus::blocking::Connection, String, usize, Vec<u8>) -> Result<PxOut, String>,
+    pub methods: Vec<MethodEntry>,
+    pub props: Vec<PropEntry>,
+    pub signals: Vec<SignalEntry>,
+    /// proxy operations: ("m" | "g" | "s", index)
+    pub px_ops: Vec<(&'static str, usize)>,
+}
+
+/// what a typed proxy call returned, in reference values
+pub fn px_result<R: crate::genval::ToR>(r: zbus::Result<R>) -> Result<Vec<RVal>, ExpErr> {
+    match r {
+        Ok(v) => Ok(crate::genval::body_of(&v)),
+        Err(zbus::Error::MethodError(name, text, _)) => Err(ExpErr { name: name.to_string(), text }),
+        Err(e) => Err(ExpErr { name: format!("<local error: {e}>"), text: None }),
+    }
+}
+
+// ------------------------------------------------------------------------------------------------
+// a server connection with generated interfaces, driven by the harness scheduler, and a raw peer
+
+pub struct Server {
+    pub conn: Connection,
+    pub sched: Sched,
+    pub peer: Peer,
+    pub sch: Sch,
+    pub log: Log,
+}
+
+impl Server {
+    pub fn new(schedule: Vec<u8>) -> Result<Server, Failure> {
+        let Some((conn, sh)) = new_p2p(None) else { return Err(Failure::new("harness: connection")) };
+        let mut sched = Sched::new();
+        sched.spawn_ticker("exec", conn.executor().clone());
+        Ok(Server { conn, sched, peer: Peer::new(sh, false), sch: Sch::new(schedule), log: Default::default() })
+    }
+
+    /// run a future that uses the server connection to completion
+    pub fn run_setup(&mut self, what: &str, fut: impl Future<Output = ()> + 'static) -> Result<(), Failure> {
+        let a = self.sched.spawn(what, fut);
+        let sch = &mut self.sch;
+        if self.sched.run(&mut || sch.next(), 400_000, &mut |s| s.done(a)) != Outcome::Goal {
+            return Err(Failure::new(format!("{what} does not complete")));
+        }
+        Ok(())
+    }
+
+    pub fn register(&mut self, e: &IfaceEntry, path: &str) -> Result<bool, Failure> {
+        let out: Arc<Mutex<Option<zbus::Result<bool>>>> = Default::default();
+        let (o2, c, p, l, f) = (out.clone(), self.conn.clone(), path.to_string(), self.log.clone(), e.register);
+        self.run_setup("registering an interface", async move {
+            let r = f(c.object_server(), p, l).await;
+            *o2.lock().unwrap() = Some(r);
+        })?;
+        let r = out.lock().unwrap().take();
+        match r {
+            Some(Ok(b)) => Ok(b),
+            other => Err(Failure::new(format!("registering {} at {path} failed: {other:?}", e.name))),
+        }
+    }
+
+    /// let everything come to rest
+    pub fn settle(&mut self) -> Outcome {
+        let sch = &mut self.sch;
+        let peer = &mut self.peer;
+        self.sched.run(&mut || sch.next(), 2_000_000, &mut |_| {
+            peer.pump();
+            false
+        })
+    }
+
+    /// all messages zbus wrote that answer `serial`
+    pub fn replies_to(&self, serial: u32) -> Vec<&RMsg> {
+        self.peer.out.iter().filter(|m| (m.mtype == msg::T_RETURN || m.mtype == msg::T_ERROR) && m.get(msg::F_REPLY_SERIAL) == Some(&RVal::U(serial))).collect()
+    }
+}
+
+pub fn error_text(m: &RMsg) -> Option<String> {
+    match m.body.first() {
+        Some(RVal::S(s)) => Some(s.clone()),
+        _ => None,
+    }
+}
+
+pub fn show_msg(m: &RMsg) -> String {
+    let t = match m.mtype {
+        msg::T_CALL => "call",
+        msg::T_RETURN => "return",
+        msg::T_ERROR => "error",
+        msg::T_SIGNAL => "signal",
+        _ => "?",
+    };
+    let mut s = format!("{t}");
+    if let Some(n) = m.get_str(msg::F_ERROR_NAME) {
+        s.push_str(&format!(" {n}"));
+    }
+    if let Some(n) = m.get_str(msg::F_MEMBER) {
+        s.push_str(&format!(" {n}"));
+    }
+    s.push_str(&format!(" [{}]", m.body.iter().map(|v| v.show()).collect::<Vec<_>>().join(", ")));
+    s
+}
